@@ -68,3 +68,24 @@ PROPS["C12"] = dict(
     trusted=["goja: iteration protocol, Array.from, JSON.stringify of results, UTF-16 <-> UTF-8 conversion of well-formed strings", "sort.Stable"],
     assumptions=["%XX runs decoding to ill-formed UTF-8 are outside the round-trip claim", "names in record constructors are distinct and not integer-like"],
 )
+
+PROPS["C16"] = dict(
+    harness="jsonmod", module="Cases.C16Check",
+    level_text="C16_airtight: for every text over all Unicode scalar values and every continuation, the literal produced by the escaper lexes, "
+               "by the ECMAScript double-quoted string-literal grammar, as exactly one literal whose value is the text; C16_source: with the pieces "
+               "generated from getCompiledSource the compiled source is the wrapper around module.exports = JSON.parse(<that literal>). Hence the "
+               "module value is JSON.parse(text) or its SyntaxError and nothing of the text is executed",
+    level_note="Proof is about Model/JsonModule.v: a model of Go's encoding/json string encoder (validated against json.Marshal itself on every case) "
+               "and of the JS string-literal lexer (goja's lexer is trusted to implement it). Tie: Gen/RequireGlue.v (extension test, wrapper pieces, "
+               "escaper identity from the source) + run-time oracle JSON.stringify(require(f)) === JSON.stringify(JSON.parse(text)) in the same runtime. "
+               "Ill-formed UTF-8 contents are covered by the run-time oracle only.",
+    rule="contents: 50% valid JSON documents with strings over quotes, back-slashes, line terminators, U+2028/9, controls, astral and "
+         "non-printable code points and all escape forms; 20% near-JSON; 30% adversarial assemblies of wrapper delimiters; 4% with ill-formed "
+         "UTF-8 appended; non-trivial = contains a delimiter/escape character or non-ASCII; distinct by hash",
+    codes={"Diff1": "model of the escaper differs from json.Marshal", "SpecFail1": "the literal does not lex back to the text with the wrapper suffix left over",
+           "Implmodule-differs-from-JSON.parse": "required value differs from JSON.parse(text)",
+           "Implcode-executed": "sentinel global set: file content was executed",
+           "Implglobals-changed": "global object changed", "Implinvalid-json-did-not-throw-SyntaxError": "invalid JSON did not throw SyntaxError"},
+    trusted=["goja's lexer implements the ES string-literal grammar; JSON.parse/JSON.stringify of goja", "encoding/json string encoder (modelled, compared on every case)"],
+    assumptions=["file text is taken as its UTF-8 decoding (ill-formed bytes become U+FFFD on both sides of the oracle)"],
+)
